@@ -768,8 +768,10 @@ package queue
 //@   loop 2 invariant [evictions_inside_the_transaction] txOpen && txPending >= 0 && durable == at(P, durable) && signals == old(signals) && !committed && len(prepared) == len(items)
 //@   loop 2 invariant [C12_room_accounting] needed == sqlDepth + len(items) && s.dropPolicy == "drop_oldest" && s.maxDepth > 0
 //@   loop 3 invariant [inserts_inside_the_transaction] txOpen && durable == at(P, durable) && signals == old(signals) && !committed && rangeindex < len(prepared) && txPending >= rangeindex + 1 && len(prepared) == len(items)
+//@   loop 1 invariant [C07_prepared_envelopes_are_the_items_with_defaults_filled_in] forall k int :: 0 <= k && k < len(prepared) ==> prepared[k].env.Route == items[k].Route && prepared[k].env.Target == items[k].Target && prepared[k].env.Attempt == items[k].Attempt && prepared[k].env.ID != "" && (items[k].ID != "" ==> prepared[k].env.ID == items[k].ID) && (items[k].Payload != nil ==> prepared[k].env.Payload == items[k].Payload)
 //@   loop 3 invariant [C12_the_whole_batch_fits] s.maxDepth <= 0 || sqlDepth + len(items) <= s.maxDepth
 //@   calls dropOldestQueued requires [C12:evicts_only_under_drop_oldest_while_the_batch_does_not_fit] s.dropPolicy == "drop_oldest" && s.maxDepth > 0 && sqlDepth + len(items) > s.maxDepth
+//@   calls database/sql.(*Conn).ExecContext requires [C07:each_insert_carries_one_item_of_the_batch_as_given] arg2 == "\nINSERT INTO queue_items (\n  id, route, target, state, received_at, attempt, next_run_at,\n  payload, headers_json, trace_json, schema_version, dead_reason,\n  lease_id, lease_until\n) VALUES (?, ?, ?, ?, ?, ?, ?, ?, ?, ?, ?, ?, NULL, NULL);\n" ==> nvarargs == 12 && (exists k int :: 0 <= k && k < len(items) && vararg1 == items[k].Route && vararg2 == items[k].Target && vararg5 == items[k].Attempt && vararg0 != "" && (items[k].ID != "" ==> vararg0 == items[k].ID) && (items[k].Payload != nil ==> vararg7 == items[k].Payload))
 //@   calls database/sql.(*Conn).ExecContext requires [C12:stores_only_when_the_whole_batch_fits] arg2 == "\nINSERT INTO queue_items (\n  id, route, target, state, received_at, attempt, next_run_at,\n  payload, headers_json, trace_json, schema_version, dead_reason,\n  lease_id, lease_until\n) VALUES (?, ?, ?, ?, ?, ?, ?, ?, ?, ?, ?, ?, NULL, NULL);\n" ==> s.maxDepth <= 0 || sqlDepth + len(items) <= s.maxDepth
 //@   ensures [C12:batch_that_does_not_fit_under_reject_is_refused_whole] len(items) > 0 && s.maxDepth > 0 && s.dropPolicy != "drop_oldest" && sqlDepth + len(items) > s.maxDepth ==> result1 != nil && result0 == 0
 //@   calls signal requires [C01:signal_only_after_commit] durable >= at(P, durable) + len(items) && !txOpen
